@@ -77,6 +77,82 @@ def order_violation(res):
     return None
 
 
+def needs_violation(sc, res):
+    """the clause 'a needs-branch starts after a needed sibling finished' on the engine's own trace, for every instance of the branch:
+    when a branch with `needs` leaves `pending`, a branch it names — an instance beneath the same instance of the step — is terminal"""
+    needs = {}
+
+    def walk(ss):
+        for s_ in ss:
+            for b in s_.get("branches", []):
+                if b.get("needs"):
+                    needs[b["id"]] = list(b["needs"])
+                walk(b.get("steps", []))
+    walk(sc["models"][0]["steps"])
+    if not needs:
+        return None
+    state, info = {}, {}
+    for i, o in obs_of(res, {"new", "tr"}):
+        key = (o["pid"], o["tid"])
+        if o["k"] == "new":
+            info[key] = (o["nid"], o.get("prev"))
+        else:
+            if o["old"] == "pending" and o["new"] == "running" and info.get(key, ("",))[0] in needs:
+                nid, prev = info[key]
+                sibs = [k2 for k2, (n2, p2) in info.items() if p2 == prev and k2 != key and n2 in needs[nid]]
+                if not any(state.get(k2) in TERMINAL for k2 in sibs):
+                    return (i, nid, [(info[k2][0], state.get(k2)) for k2 in sibs])
+            state[key] = o["new"]
+    return None
+
+
+def reentry_scenario(rng, i):
+    """the step that holds a needs-branch is entered twice in one process (a client `back`): the branch of the second pass waits for
+    the needed sibling of the second pass"""
+    two = rng.chance(1, 2)
+    brs = [{"id": "bA", "if": "(x == 0)", "steps": [{"id": "sA", "acts": [{"id": "a", "uses": gen.IRQ, "key": "ka"}]}]},
+           {"id": "bN", "needs": ["bA"], "steps": [{"id": "sN", "acts": [{"id": "n", "uses": gen.IRQ, "key": "kn"}]}]}]
+    if two:
+        brs.append({"id": "bM", "needs": ["bA"], "steps": [{"id": "sM", "acts": [{"id": "m", "uses": gen.IRQ, "key": "km"}]}]})
+    brs = rng.shuffle(brs)
+    w = {"id": "m1", "steps": [{"id": "s1", "acts": [{"id": "a0", "uses": gen.IRQ, "key": "ka0"}]}, {"id": "s2", "branches": brs},
+                               {"id": "s3", "acts": [{"id": "z", "uses": gen.IRQ, "key": "kz"}]}]}
+    pol = rng.pick(["fifo", "lifo", "rand"])
+    ops = [["deploy", 0], ["start", "m1", {"pid": "p1", "x": 0, "y": 0}], ["runall", pol, rng.below(1 << 30)],
+           ["act", "next", "p1", {"nid": "a0", "k": -1}, {}], ["runall", pol, rng.below(1 << 30)],
+           ["act", "next", "p1", {"nid": "a", "k": -1}, {}], ["runall", pol, rng.below(1 << 30)],
+           # the needed sibling of the first pass has ended, the needs-branch runs: back to the first step from inside it
+           ["act", "back", "p1", {"nid": "n", "k": -1}, {"to": "s1"}], ["runall", pol, rng.below(1 << 30)],
+           ["act", "next", "p1", {"nid": "a0", "k": -1}, {}], ["runall", pol, rng.below(1 << 30)]]
+    # second pass: the other branches wait for the second instance of bA
+    for nid in rng.shuffle(["a", "n"] + (["m"] if two else [])) + ["a", "n", "m", "z"]:
+        ops += [["act", "next", "p1", {"nid": nid, "k": -1}, {}], ["runall", pol, rng.below(1 << 30)]]
+    return {"id": f"c04-reentry-{i}", "config": {"keep": True, "dump_each": True}, "models": [w], "ops": ops,
+            "exprs": {"(x == 0)": ["bin", "==", ["var", "x"], ["lit", 0]]}, "inputs": {"x": 0, "y": 0}, "no_ref": True}
+
+
+def mixed_tail_scenario(rng, i):
+    """a step with acts beside its branches whose branches end while a later act of the chain is still to come (scheduled but not yet
+    initialised, or waiting): the step stays open until the acts have run"""
+    inner = rng.pick([[], [{"id": "mi", "uses": gen.MSG, "key": "kmi"}], [{"id": "mi", "uses": gen.MSG, "key": "kmi"}, {"id": "mj", "uses": gen.MSG, "key": "kmj"}]])
+    b1 = {"id": "b1", "if": "(x == 0)", "steps": [{"id": "s11", "acts": inner}] if (inner or rng.chance(1, 2)) else []}
+    acts = [{"id": "a1", "uses": rng.pick([gen.MSG, gen.MSG, gen.IRQ]), "key": "ka1"}, {"id": "a2", "uses": rng.pick([gen.IRQ, gen.IRQ, gen.MSG]), "key": "ka2"}]
+    if rng.chance(1, 3):
+        acts.append({"id": "a3", "uses": gen.IRQ, "key": "ka3"})
+    brs = [b1] + ([{"id": "b2", "if": "(x == 1)", "steps": []}] if rng.chance(1, 2) else [])
+    w = {"id": "m1", "steps": [{"id": "s1", "branches": rng.shuffle(brs), "acts": acts}, {"id": "s2", "acts": [{"id": "z", "uses": gen.IRQ, "key": "kz"}]}]}
+    pol = rng.pick(["fifo", "lifo", "rand"])
+    ops = [["deploy", 0], ["start", "m1", {"pid": "p1", "x": 0, "y": 0}]]
+    for _ in range(6):
+        ops += [["runall", pol, rng.below(1 << 30)], ["act", "next", "p1", {"open": 0}, {}]]
+    ops.append(["runall", pol, rng.below(1 << 30)])
+    cfg = {"keep": True, "dump_each": True}
+    if rng.chance(1, 4):
+        cfg.update({"mode": "free", "workers": rng.pick([1, 2, 4])})
+    return {"id": f"c04-mixedtail-{i}", "config": cfg, "models": [w], "ops": ops,
+            "exprs": {"(x == 0)": ["bin", "==", ["var", "x"], ["lit", 0]], "(x == 1)": ["bin", "==", ["var", "x"], ["lit", 1]]}, "inputs": {"x": 0, "y": 0}}
+
+
 def run_batch(ctx, bases, stats):
     scs = []
     groups = []          # scenarios of one base workflow (its permutations)
@@ -95,6 +171,9 @@ def run_batch(ctx, bases, stats):
                 scs.append(scenario(wv, exprs, {"x": x, "y": y}, rng.fork(sid), sid, mode, workers))
                 grp.append(len(scs) - 1)
         groups.append(grp)
+        r2 = Rng(ctx.seed * 7368787 + i)
+        scs.append(reentry_scenario(r2.fork("re"), i))
+        scs.append(mixed_tail_scenario(r2.fork("mt"), i))
     results = ctx.harness("run", scs)
     models = ctx.driver([opcorr.model_request(sc) for sc in scs], tag="dm")
     ref_reqs, ptsl = [], []
@@ -117,6 +196,14 @@ def run_batch(ctx, bases, stats):
         ov = order_violation(res)
         if ov:
             ctx.violation(f"C04|order|{ov[3]}", f"op {ov[0]}: {ov[1]} was started while its predecessor {ov[2]} was {ov[3]}", {"scenario": sc})
+            continue
+        nv = needs_violation(sc, res)
+        if nv:
+            ctx.violation("C04|needs-branch-started-early", f"op {nv[0]}: the needs-branch {nv[1]} left pending while the siblings it names were {nv[2]}", {"scenario": sc})
+            continue
+        if sc.get("no_ref"):
+            stats["reentry_runs"] = stats.get("reentry_runs", 0) + 1
+            ctx.nontrivial([sc["models"], sc["ops"]])
             continue
         if not isinstance(rf, dict) or not rf.get("in_fragment"):
             continue
